@@ -65,7 +65,7 @@ def rand_call(rng):
 
 def generate(rng, tier):
     cases = []
-    n = 500 if tier == "quick" else 6000
+    n = 800 if tier == "quick" else 6000
     for _ in range(n):
         calls = [rand_call(rng) for _ in range(rng.randint(1, 4))]
         r = rng.random()
